@@ -148,6 +148,13 @@ class VectorExpressionSum(Expression):
         return f"VectorExpressionSum(size={self.expression.size})"
 
 
+def _as_vector_operand(vector):  # type: ignore[no-untyped-def]
+    """``x ** k`` and ``f(x)`` are vectors too: reductions take them element by element."""
+    if isinstance(vector, (ElementwisePower, ElementwiseUnary)):
+        return vector._as_vector_expression()
+    return vector
+
+
 class DotProduct(Expression):
     """Dot product of two vectors: x · y = x[0]*y[0] + x[1]*y[1] + ... + x[n-1]*y[n-1].
 
@@ -172,6 +179,8 @@ class DotProduct(Expression):
         left: VectorVariable | VectorExpression,
         right: VectorVariable | VectorExpression,
     ) -> None:
+        left = _as_vector_operand(left)
+        right = _as_vector_operand(right)
         left_size = (
             left.size
             if isinstance(left, (VectorVariable, VectorExpression))
@@ -304,7 +313,7 @@ class L2Norm(Expression):
     __slots__ = ("vector",)
 
     def __init__(self, vector: VectorVariable | VectorExpression) -> None:
-        self.vector = vector
+        self.vector = _as_vector_operand(vector)
         self._hash = None
 
     def evaluate(
@@ -352,7 +361,7 @@ class L1Norm(Expression):
     __slots__ = ("vector",)
 
     def __init__(self, vector: VectorVariable | VectorExpression) -> None:
-        self.vector = vector
+        self.vector = _as_vector_operand(vector)
         self._hash = None
 
     def evaluate(
@@ -409,6 +418,7 @@ class LinearCombination(Expression):
         vector: VectorVariable | VectorExpression,
     ) -> None:
         coefficients = np.asarray(coefficients)
+        vector = _as_vector_operand(vector)
         vec_size = vector.size if hasattr(vector, "size") else len(vector)
         if len(coefficients) != vec_size:
             raise DimensionMismatchError(
@@ -493,9 +503,6 @@ class _ElementwiseArithmetic:
     def _as_vector_expression(self) -> "VectorExpression":
         return VectorExpression(list(self))  # type: ignore[call-overload]
 
-    def __len__(self) -> int:
-        return self.size  # type: ignore[attr-defined]
-
     def __add__(self, other):  # type: ignore[no-untyped-def]
         return self._as_vector_expression() + other
 
@@ -542,6 +549,8 @@ class _ElementwiseArithmetic:
         return self._as_vector_expression() @ other
 
     def __rmatmul__(self, other):  # type: ignore[no-untyped-def]
+        if isinstance(other, (VectorVariable, VectorExpression)):
+            return DotProduct(other, self._as_vector_expression())
         return self._as_vector_expression().__rmatmul__(other)
 
 
@@ -596,7 +605,9 @@ class ElementwisePower(_ElementwiseArithmetic, Expression):
             yield BinaryOp(var, Constant(self.power), "**")
 
     def __getitem__(self, idx: int) -> Expression:
-        """Get single element: x[i] ** k."""
+        """Get single element: x[i] ** k (a slice gives x[a:b] ** k)."""
+        if isinstance(idx, slice):
+            return ElementwisePower(self.vector[idx], self.power)  # type: ignore[return-value]
         return BinaryOp(self.vector._variables[idx], Constant(self.power), "**")
 
     def __repr__(self) -> str:
@@ -745,9 +756,11 @@ class ElementwiseUnary(_ElementwiseArithmetic, Expression):
             yield UnaryOp(var, self.op)
 
     def __getitem__(self, idx: int) -> Expression:
-        """Get single element: f(x[i])."""
+        """Get single element: f(x[i]) (a slice gives f(x[a:b]))."""
         from optyx.core.expressions import UnaryOp
 
+        if isinstance(idx, slice):
+            return ElementwiseUnary(self.vector[idx], self.op)  # type: ignore[return-value]
         return UnaryOp(self.vector._variables[idx], self.op)
 
     def __repr__(self) -> str:
